@@ -6,25 +6,29 @@
      Contract (verdict)  StreamBytes!ContractOK on the observation + identity of the yielded records
      Design   (drift)    the observation equals StreamBytes!DesignRead; the writer's fp.write calls are
                          length part then body, frame by frame                                         *)
-EXTENDS Naturals, Sequences, FiniteSets, TLC, Json, IOUtils
+EXTENDS Naturals, Sequences, FiniteSets, TLC, Json, IOUtils, SequencesExt
 Cases == JsonDeserialize(IOEnv.TRACE_FILE)
-SB == INSTANCE StreamBytes WITH MaxFrames <- 0, LenSize <- 4, BodySizes <- {}, HdrBody <- 15, Dev <- {},
+SB == INSTANCE StreamBytes WITH MaxFrames <- 0, LenSize <- 4, BodySizes <- {}, HdrBody <- 15, Dev <- {}, DescIds <- {}, MaxTransient <- 1,
                                 layout <- <<>>, disk <- 0, pc <- "idle", dead <- FALSE
 VARIABLE cid
 Init == cid \in 1..Len(Cases)
 Next == UNCHANGED cid
 Spec == Init /\ [][Next]_cid
 C == Cases[cid]
+\* the logged layout: ids arrive as a JSON list, the model wants a set
+Lay == [i \in DOMAIN C.layout |-> [k |-> C.layout[i].k, len |-> C.layout[i].len, lost |-> C.layout[i].lost,
+                                     ids |-> {C.layout[i].ids[j] : j \in DOMAIN C.layout[i].ids}]]
 \* for compressed containers the plain prefix a streaming decoder recovers is what "is on disk"; a clean end
 \* is then not pinned (the container itself is damaged)
 Contract == /\ C.obs.identical
             /\ IF C.pin_boundary
-               THEN SB!ContractOK(C.layout, C.cut, C.obs.yielded, C.obs.how)
-               ELSE C.obs.yielded = SB!Expected(C.layout, C.cut).y /\ C.obs.how \in {"end", "raise"}
-Design == LET r == SB!DesignRead(C.layout, C.cut) IN
+               THEN SB!ContractOK(Lay, C.cut, C.obs.yielded, C.obs.how)
+               ELSE C.obs.yielded = SB!Expected(Lay, C.cut).y /\ C.obs.how \in {"end", "raise"}
+Design == LET r == SB!DesignRead(Lay, C.cut) IN
             C.pin_boundary => (C.obs.how = r.how /\ C.obs.yielded = r.y)
-\* fp.write call sizes made by the writer up to the fault: 4, body, 4, body, ...
-DesignCalls == \A i \in DOMAIN C.calls :
-                  LET f == (i + 1) \div 2 IN
-                  f <= Len(C.layout) /\ C.calls[i] = (IF i % 2 = 1 THEN 4 ELSE C.layout[f].len)
+\* fp.write call sizes made by the writer up to the fault: 4, body, 4, body, ... (a frame lost to a transient
+\* failure shows its length call only)
+RECURSIVE Flat(_, _)
+Flat(lay, i) == IF i > Len(lay) THEN <<>> ELSE (IF lay[i].lost THEN <<4>> ELSE <<4, lay[i].len>>) \o Flat(lay, i + 1)
+DesignCalls == IsPrefix(C.calls, Flat(Lay, 1))
 =============================================================================
